@@ -12,7 +12,7 @@ TECHNIQUE = ("validate-before-mutate: abstract interpretation of every declarati
 
 
 def check_entry(prog, res: Result, rule, site, case, body, preexisting_of=None, max_depth=12, min_raising=1,
-                min_accepting=1):
+                min_accepting=1, snap_of=None):
     outs = run_body(prog, body, max_depth=max_depth)
     res.paths += len(outs)
     res.functions.add(site)
@@ -24,6 +24,11 @@ def check_entry(prog, res: Result, rule, site, case, body, preexisting_of=None, 
             n_raise += 1
             pre = preexisting_of(o) if preexisting_of else ()
             w = persistent_writes(o.state, pre)
+            if snap_of is not None:
+                before, after = snap_of(o)
+                if before != after:
+                    fails.append(Violation(rule, site, case, f"{exc_sig(o)} after the object was changed",
+                                           f"rejected with {o.exc.name}; before {before!r}, after {after!r}"[:500], list(o.trace)))
             if w:
                 what = sorted({f"{x[0]} {x[1]}{'.' + x[2] if x[0] in ('mapcall', 'listop', 'setattr', 'dictcall') else ''}"
                                for x in w})
@@ -68,6 +73,15 @@ def run(prog, tier) -> Result:
             check_entry(prog, res, "R16.1", "QuantityMeta.__new__/__init__",
                         f"class creation derived={derived} ref_unit_symbol={ref}", body,
                         min_raising=0 if not (derived or ref) else 1)
+
+    # a derived type over a base type without reference unit: no reference unit can be derived from the definition,
+    # one is registered only when its symbol is given explicitly
+    for ref in (False, True):
+        def body_nr(I, c, ref=ref):
+            base_types(c, second_has_ref=False)
+            return create_class(prog, I, c, derived=True, ref_symbol=ref, ref_name=ref)
+        check_entry(prog, res, "R16.1", "QuantityMeta.__new__/__init__",
+                    f"class creation derived from a type without reference unit, ref_unit_symbol={ref}", body_nr)
 
     def body_q(I, c):
         base_types(c)
@@ -155,30 +169,29 @@ def run(prog, tier) -> Result:
     check_entry(prog, res, "R16.1", "MoneyMeta.register_currency", "any code", rc_body)
 
     # ---- converter update
-    from .c11 import mk_converter, _date
+    # the converter is built by its own constructor (and, for a later update, one accepted update of yearly rates);
+    # a rejected update must leave the whole evaluated object graph of the converter as it was
+    from .c11 import Scenario, snapshot
     up = prog.method("MoneyConverter", "update")
-    holder = {}
 
     def up_body(vkind, prior):
         def body(I, c):
-            conv, base = mk_converter(c, prog, prior)
-            conv.fields["_rate_dict"] = DictV(tag="_rate_dict")
-            holder["conv"] = conv
-            spec1 = TupleV([c.unit("c1", "M"), c.num("ta1", "dec"), c.num("um1", "int")])
+            s = Scenario(c, prog)
+            if prior is not None:
+                v0, p0 = s.validity(prior, "p")
+                s.update(v0, p0, ["ca"])
+            spec1 = TupleV([s.cur["cb"], c.num("ta1", "dec"), c.num("um1", "int")])
             spec2 = TupleV([StrV(None, "code"), c.num("ta2", "frac"), c.num("um2", "int")])
-            v = {"None": NONE, "int": Num(RF.atom(("k", "year")), "int"), "str": StrV(None, "period"),
-                 "tuple": TupleV([Num(RF.atom(("k", "y")), "int"), Num(RF.atom(("k", "m")), "int")]),
-                 "date": _date("vdate")}[vkind]
-            I.conv_ref = conv
-            c.st.conv_ref = conv
-            return I.call_function(up, [conv, v, ListV([spec1, spec2])], {})
+            v, _p = s.validity(vkind, "q")
+            s.before = snapshot(c.st, s.conv)
+            return I.call_function(up, [s.conv, v, ListV([spec1, spec2])], {})
         return body
-    for vk in ("None", "int", "str", "tuple", "date"):
-        for prior in (None, "int"):
+    for vk in ("None", "year", "text", "month", "date"):
+        for prior in (None, "year"):
             check_entry(prog, res, "R16.1", "MoneyConverter.update",
                         f"validity {vk}, {'first' if prior is None else 'later'} update", up_body(vk, prior),
-                        preexisting_of=lambda o: (o.state.conv_ref, o.state.conv_ref.fields.get("_rate_dict")),
-                        min_accepting=0 if (prior == "int" and vk != "int" and vk != "str") else 1)
+                        snap_of=lambda o: (o.state.scn.before, snapshot(o.state, o.state.scn.conv)),
+                        min_accepting=0 if (prior == "year" and vk not in ("year", "text")) else 1)
 
     res.require("R16.1", 30)
     return res
